@@ -228,6 +228,17 @@ func (f *fidRef) IncRef() {
 // DecRef should be called when you're finished with a fid.
 func (f *fidRef) DecRef() error {
 	if atomic.AddInt64(&f.refs, -1) == 0 {
+		// Remove this ref from the path tree before closing the file: a
+		// concurrent rename of an ancestor walks the tree and calls
+		// Renamed on every ref it still finds there (DecRef does not hold
+		// renameMu), which must not happen after Close.
+		//
+		// If we've been previously deleted, removing this ref is a
+		// no-op. That's expected.
+		if f.parent != nil {
+			f.parent.pathNode.removeChild(f)
+		}
+
 		var (
 			errs []error
 			err  = f.file.Close()
@@ -243,9 +254,6 @@ func (f *fidRef) DecRef() error {
 		// the references reach zero, we don't need to worry about
 		// clearing the parent.
 		if f.parent != nil {
-			// If we've been previously deleted, removing this
-			// ref is a no-op. That's expected.
-			f.parent.pathNode.removeChild(f)
 			if pErr := f.parent.DecRef(); pErr != nil {
 				pErr = fmt.Errorf("parent: %w", pErr)
 				errs = append(errs, pErr)
